@@ -1293,3 +1293,15 @@ Proof.
   unfold coherent_provb, coherent_prov. rewrite forallb_forall. intros H l h Hl.
   apply coherentb_spec. exact (H _ (alookup_in _ _ _ Hl)).
 Qed.
+
+(* ------------------------------------------------------------------ the scenario of the non-vacuity Example (Props/C15.v) *)
+Definition ex_init : list (slot * value) := [(10, 1); (12, 1); (14, 1)].
+Definition ex_steps : list step :=
+  [ STick [((0, 0), mkPatch [10; 11] [11] [mkOp [10] [(11, Some 1)]])];
+    SFork (mkForkReq 0 0 0 1 [(1, 0)] true);
+    STick [((0, 0), mkPatch [12; 13] [13] [mkOp [12] [(13, Some 5)]])];
+    STick [((1, 0), mkPatch [14; 15] [15] [mkOp [14] [(15, Some 7)]])];
+    STick [((1, 0), mkPatch [10; 11; 13] [11] [mkOp [10] [(11, Some 2)]])];
+    STick [((1, 0), mkPatch [12; 13] [13] [mkOp [12] [(13, Some 9)]])] ].
+Definition ex_w : world := world_c ex_init ex_steps.
+
